@@ -5,9 +5,11 @@ from .util import call
 
 ID = 'C04'
 LEAN_MODULE = 'KernProofs.C04'
+EXTRA_MODULES = ['KernProofs.C04Doc']
 THEOREMS = ['KM.C04.C04_kern_is_stripped_ekern', 'KM.C04.C04_akern_is_stripped_aekern', 'KM.C04.C04_bkern_is_stripped_bekern',
             'KM.C04.bekernOf_noDecSep', 'KM.C04.bekernNote_noteText', 'KM.C04.bekernOf_chordText', 'KM.C04.C04_bekern_notewise',
-            'KM.C04.C04_bekern_single', 'KM.C04.prefix_table', 'KM.C04.C04_header', 'KM.C04.C04_nonnote_identical']
+            'KM.C04.C04_bekern_single', 'KM.C04.prefix_table', 'KM.C04.C04_header', 'KM.C04.C04_nonnote_identical',
+            'KM.C04D.C04_cell_view', 'KM.C04D.C04_line_view', 'KM.C04D.viewOpt_isSome']
 FINGERPRINTS = ['tokenizers.KernTokenizer.tokenize', 'tokenizers.EkernTokenizer.tokenize', 'tokenizers.BekernTokenizer.tokenize',
                 'tokenizers.BkernTokenizer.tokenize', 'tokenizers.AEKernTokenizer.tokenize', 'tokenizers.AKernTokenizer.tokenize',
                 'tokenizers.TokenizerFactory.create', 'tokenizers.Encoding.prefix', 'tokens.NoteRestToken.export', 'tokens.ChordToken.export',
